@@ -483,7 +483,8 @@ theorem host_plain (e : Env) (u : Url) (h : Str) (ph : PlainHost h)
   have h58 : mem 58 h = false := NetlocLemmas.mem_false_iff.mpr (plain_avoid ph (by decide))
   rw [hl]
   simp only [isDigitChar, hlt, ↓reduceIte, pure, Except.pure, h58, Bool.or_false]
-  cases isDigitC l with
+  -- `raw[-1].isdigit() and "xn--" not in raw`: either way the answer is `h` (the decoder maps `h` to itself)
+  cases (isDigitC l && !hasSub [120, 110, 45, 45] h) with
   | true => rfl
   | false =>
     simp only [Bool.false_eq_true, ↓reduceIte, idnaDecode, ph.ascii, Bool.not_true, hidna, ask,
